@@ -47,7 +47,7 @@ import logging
 import base64
 import enum
 
-from typing import Any, Callable, Dict, Iterable, Optional, Set, Tuple, Type, TypeVar
+from typing import Any, Callable, Dict, Iterable, List, Optional, Set, Tuple, Type, TypeVar
 from .._generic import XML_NS_MAP, XML_NS_AAS, MODELLING_KIND_INVERSE, ASSET_KIND_INVERSE, KEY_TYPES_INVERSE, \
     ENTITY_TYPES_INVERSE, IEC61360_DATA_TYPES_INVERSE, IEC61360_LEVEL_TYPES_INVERSE, KEY_TYPES_CLASSES_INVERSE, \
     REFERENCE_TYPES_INVERSE, DIRECTION_INVERSE, STATE_OF_EVENT_INVERSE, QUALIFIER_KIND_INVERSE, PathOrIO
@@ -806,7 +806,7 @@ class AASFromXmlDecoder:
             None,
             _child_text_mandatory(element, NS_AAS + "contentType")
         )
-        value = _get_text_or_none(element.find(NS_AAS + "value"))
+        value = _get_text_or_empty_string_or_none(element.find(NS_AAS + "value"))
         if value is not None:
             blob.value = base64.b64decode(value)
         cls._amend_abstract_attributes(blob, element)
@@ -1010,8 +1010,20 @@ class AASFromXmlDecoder:
             value=_get_text_or_none(element.find(NS_AAS + "value")),
             external_subject_id=_failsafe_construct(element.find(NS_AAS + "externalSubjectId"),
                                                     cls.construct_external_reference, cls.failsafe),
-            semantic_id=_failsafe_construct(element.find(NS_AAS + "semanticId"), cls.construct_reference, cls.failsafe)
+            semantic_id=_failsafe_construct(element.find(NS_AAS + "semanticId"), cls.construct_reference, cls.failsafe),
+            supplemental_semantic_id=cls._construct_supplemental_semantic_ids(element)
         )
+
+    @classmethod
+    def _construct_supplemental_semantic_ids(cls, element: etree._Element) -> List[model.Reference]:
+        """
+        Helper function for objects whose supplemental semantic ids have to be passed to the constructor
+        """
+        supplemental_semantic_ids = element.find(NS_AAS + "supplementalSemanticIds")
+        if supplemental_semantic_ids is None:
+            return []
+        return list(_child_construct_multiple(supplemental_semantic_ids, NS_AAS + "reference", cls.construct_reference,
+                                              cls.failsafe))
 
     @classmethod
     def construct_asset_information(cls, element: etree._Element, object_class=model.AssetInformation, **_kwargs: Any) \
@@ -1128,16 +1140,16 @@ class AASFromXmlDecoder:
                                          cls.failsafe)
         if short_name is not None:
             ds_iec.short_name = short_name
-        unit = _get_text_or_none(element.find(NS_AAS + "unit"))
+        unit = _get_text_or_empty_string_or_none(element.find(NS_AAS + "unit"))
         if unit is not None:
             ds_iec.unit = unit
         unit_id = _failsafe_construct(element.find(NS_AAS + "unitId"), cls.construct_reference, cls.failsafe)
         if unit_id is not None:
             ds_iec.unit_id = unit_id
-        source_of_definition = _get_text_or_none(element.find(NS_AAS + "sourceOfDefinition"))
+        source_of_definition = _get_text_or_empty_string_or_none(element.find(NS_AAS + "sourceOfDefinition"))
         if source_of_definition is not None:
             ds_iec.source_of_definition = source_of_definition
-        symbol = _get_text_or_none(element.find(NS_AAS + "symbol"))
+        symbol = _get_text_or_empty_string_or_none(element.find(NS_AAS + "symbol"))
         if symbol is not None:
             ds_iec.symbol = symbol
         data_type = _get_text_mapped_or_none(element.find(NS_AAS + "dataType"), IEC61360_DATA_TYPES_INVERSE)
@@ -1147,14 +1159,14 @@ class AASFromXmlDecoder:
                                          cls.failsafe)
         if definition is not None:
             ds_iec.definition = definition
-        value_format = _get_text_or_none(element.find(NS_AAS + "valueFormat"))
+        value_format = _get_text_or_empty_string_or_none(element.find(NS_AAS + "valueFormat"))
         if value_format is not None:
             ds_iec.value_format = value_format
         value_list = _failsafe_construct(element.find(NS_AAS + "valueList"), cls.construct_value_list, cls.failsafe)
         if value_list is not None:
             ds_iec.value_list = value_list
         value = _get_text_or_none(element.find(NS_AAS + "value"))
-        if value is not None and value_format is not None:
+        if value is not None:
             ds_iec.value = value
         level_type = element.find(NS_AAS + "levelType")
         if level_type is not None:
